@@ -19,9 +19,11 @@ pub struct InputEvent {
 }
 
 impl InputEvent {
+    /// Character data of a Text event, with entity and character references resolved
+    /// (strings are held unescaped internally and escaped again when written).
     pub fn text_string(&self) -> Option<String> {
         match &self.event {
-            Event::Text(t) => Some(String::from_utf8(t.to_vec()).expect("utf8")),
+            Event::Text(t) => Some(unescape_text(t)),
             _ => None,
         }
     }
@@ -49,6 +51,14 @@ impl From<Event<'_>> for InputEvent {
 impl From<OutputEvent> for InputEvent {
     fn from(value: OutputEvent) -> Self {
         InputEvent::from(Event::from(value))
+    }
+}
+
+/// Resolve references in character data; text with an unknown entity is kept as written.
+fn unescape_text(t: &BytesText) -> String {
+    match t.unescape() {
+        Ok(s) => s.into_owned(),
+        Err(_) => String::from_utf8_lossy(t).into_owned(),
     }
 }
 
@@ -285,7 +295,7 @@ pub fn tagify_events(events: InputList) -> Result<Vec<Tag>> {
                 tags.push(Tag::Comment(text, None));
             }
             Event::Text(t) => {
-                let text = String::from_utf8(t.to_vec())?;
+                let text = unescape_text(t);
                 if let Some(t) = tags.last_mut() {
                     t.set_text(text)
                 } else {
